@@ -373,6 +373,9 @@ pub fn units(prop: &str, tier: Tier) -> Option<Vec<Unit>> {
                 class("k07-str-multibyte", &en::k07(true), pick(3, 4)).kind(KindId::StrMb).alarm(alarm).unit(),
                 class("k07-slice", &en::k07(true), pick(3, 3)).kind(KindId::Slice).alarm(alarm).unit(),
                 class("k07-str-through-clone", &en::k07(true), 3).alarm(alarm).clone_mode().unit(),
+                // spans do not depend on the error type (zero-sized and span-only error types take fast paths)
+                class("k07-str-emptyerr", &en::k07(true), 3).cfg(CfgId::Empty).alarm(alarm).unit(),
+                class("k07-str-cheap", &en::k07(true), 3).cfg(CfgId::Cheap).alarm(alarm).unit(),
                 class("k07-stream", &en::k07(false), pick(3, 3)).kind(KindId::Stream).alarm(alarm).unit(),
                 // a reader-backed input: spans are positions, whatever the reader behind them is doing
                 class("k07-ioinput", &en::k07(false), pick(3, 3)).kind(KindId::Io).alarm(alarm).unit(),
